@@ -20,7 +20,11 @@ RULE = (
     'within 1e-16..1e-5 of +-axis and parallel up to rounding (not bit-identical), tangent to the side wall (offset 0, +-1e-12, +-1e-8, +-1e-4 of the radius), through the rim, inside a cap plane, '
     'starting on the surface. Quadrature: kinds cheap/medium/expensive, height/radius ratios crossing every node-count '
     'threshold. Transmission: wavelengths log-uniform 0.1..20 angstrom, detectors in all directions (incl. on the axis '
-    'and along the beam), near and far. A case is distinct by (operation, all input bit patterns); non-trivial when the '
+    'and along the beam), near and far. Object-reuse histories: 2-3 uses (beam_intersection, quadrature of each kind, '
+    'volume, center, compute_transmission_map) of ONE Cylinder object interleaved with reassignment of each geometry field '
+    '(setattr, dataclasses.replace, copy.copy + setattr), each result compared with a freshly constructed Cylinder and '
+    'with the stateless model; Material / wavelength / beam / detector objects reused across two calls with Material fields '
+    'reassigned. A case is distinct by (operation, all input bit patterns); non-trivial when the '
     'ray meets the solid / the axis needs a rotation / the attenuation is non-zero.'
 )
 ASSUMPTIONS = [
@@ -607,11 +611,11 @@ def _off_axis(a, d):
     return _unit([d[i] + 1e-3 * e1[i] for i in range(3)])
 
 
-def gen_transmission_case(rng, kind=None, axis_aligned='all'):
+def gen_transmission_case(rng, kind=None, axis_aligned='all', cyl=None):
     """axis_aligned: 'none' — neither the beam nor a detector direction is within 1e-4 of the axis;
     'beam' — the beam may be bit-identical to +-axis (exactly parallel), detectors off the axis line;
     'all' — detectors may also sit on the axis line (directions parallel up to rounding)"""
-    c = gen_cylinder(rng, same_scale=True)
+    c = dict(cyl) if cyl is not None else gen_cylinder(rng, same_scale=True)
     size = max(c['r'], c['h'])
     # keep the sample within a factor 1e3 of the origin so that detector directions are well defined
     if _norm(c['base']) > 100 * size:
@@ -752,12 +756,309 @@ def _correspond_corpus(ctx):
             ctx.disagree({'op': 'beam', 'corpus': name}, li, lm, 'path length: implementation vs model')
 
 
+
+# ---------------------------------------------------------------------------------------------
+# object-reuse histories: one Cylinder object used, its geometry fields reassigned, used again;
+# every result must be the result of a freshly constructed Cylinder with the same field values
+
+STALE_KEY = 'C18:stale-geometry-after-field-update'
+STALE_ARGS_KEY = 'C18:stale-material-or-detector-after-reuse'
+GEOM_FIELDS = ['center_of_base', 'symmetry_line', 'height', 'radius']
+STATE_KEY = {'center_of_base': 'base', 'symmetry_line': 'a', 'height': 'h', 'radius': 'r'}
+
+
+def _hist_use(rng, c, kinds, touch_center=False):
+    """one use of the cylinder in state c: [name, params]"""
+    names = ['quadrature', 'center', 'transmission'] if touch_center else \
+        ['beam', 'beam', 'quadrature', 'quadrature', 'volume', 'center', 'transmission', 'transmission']
+    name = rng.choice(names)
+    if name == 'beam':
+        cats = rng.sample(RAY_CATS + NEAR_AXIS_CATS, 4)
+        return ['beam', [[cat, *gen_ray(rng, c, cat)] for cat in cats]]
+    if name == 'quadrature':
+        return ['quadrature', rng.choice(kinds)]
+    if name == 'transmission':
+        t = gen_transmission_case(rng, kind=rng.choice(kinds), axis_aligned='beam', cyl=c)
+        return ['transmission', {k: t[k] for k in ('kind', 'beam', 'dets', 'det_unit', 'lams', 'sig_s', 'sig_a', 'dens')}]
+    return [name, None]
+
+
+def _hist_mutation(rng, c):
+    """[how, {field: new value}]; how = set | replace | copy+set"""
+    size = max(c['r'], c['h'])
+    n = rng.choice([1, 1, 1, 2])
+    upd = {}
+    for f in rng.sample(GEOM_FIELDS, n):
+        if f == 'center_of_base':
+            upd[f] = [x + rng.uniform(-4, 4) * size for x in c['base']]
+        elif f == 'symmetry_line':
+            upd[f] = gen_axis(rng)[1]
+        elif f == 'height':
+            upd[f] = min(max(c['h'] * _lu(rng, 0.3, 3), 1e-3), 1e3)
+        else:
+            upd[f] = min(max(c['r'] * _lu(rng, 0.3, 3), 1e-3), 1e3)
+    return [rng.choice(['set', 'set', 'set', 'replace', 'copy+set']), upd]
+
+
+def gen_history(rng, kinds=('cheap', 'medium', 'expensive')):
+    c = gen_cylinder(rng, same_scale=True)
+    if _norm(c['base']) > 100 * max(c['r'], c['h']):
+        c['base'] = [x / 50 for x in c['base']]
+    c0 = dict(c)
+    ops = []
+    n_uses = rng.choice([2, 3])
+    for i in range(n_uses):
+        ops.append(['use', *_hist_use(rng, c, list(kinds), touch_center=(i == 0 and rng.random() < 0.7))])
+        if i < n_uses - 1:
+            m = _hist_mutation(rng, c)
+            ops.append(m)
+            for f, v in m[1].items():
+                c[STATE_KEY[f]] = v
+    return {'cyl': c0, 'ops': ops}
+
+
+def _apply_mutation(obj, c, how, upd):
+    """returns (object to continue with, new state)"""
+    import copy
+    import dataclasses
+
+    import scipp as sc
+
+    vals = {}
+    c = dict(c)
+    for f, v in upd.items():
+        c[STATE_KEY[f]] = v
+        if f == 'center_of_base':
+            vals[f] = sc.vector(v, unit=c['unit'])
+        elif f == 'symmetry_line':
+            vals[f] = sc.vector(v)
+        else:
+            vals[f] = sc.scalar(v, unit=c['unit'])
+    if how == 'replace':
+        return dataclasses.replace(obj, **vals), c
+    if how == 'copy+set':
+        obj = copy.copy(obj)
+    for f, v in vals.items():
+        setattr(obj, f, v)
+    return obj, c
+
+
+def _tm_values(cyl, material, beam_var, wav_var, det_var, kind):
+    from scippneutron.absorption import compute_transmission_map
+
+    tm = compute_transmission_map(cyl, material, beam_direction=beam_var, wavelength=wav_var,
+                                  detector_position=det_var, quadrature_kind=kind)
+    return [float(v) for row in tm.values for v in row]
+
+
+def _tm_args(c, u):
+    import scipp as sc
+
+    t = {'cyl': c, **u}
+    k = _unit_ratio(c['unit'], u['det_unit'])
+    return (mk_material(t), sc.vector(u['beam']),
+            sc.array(dims=['wavelength'], values=u['lams'], unit='angstrom'),
+            sc.vectors(dims=['det'], values=[[x * k for x in d] for d in u['dets']], unit=u['det_unit']))
+
+
+def _do_use(obj, c, name, par):
+    """canonical result of one use: flat list of floats in the unit of the cylinder"""
+    import scipp as sc
+
+    lu = c['unit']
+    if name == 'beam':
+        starts = sc.vectors(dims=['ray'], values=[r[1] for r in par], unit=lu)
+        dirs = sc.vectors(dims=['ray'], values=[r[2] for r in par])
+        return [float(v) for v in obj.beam_intersection(starts, dirs).to(unit=lu).values]
+    if name == 'quadrature':
+        p, w = obj.quadrature(par)
+        return [float(x) for q in p.to(unit=lu).values for x in q] + [float(x) for x in w.to(unit=f'{lu}**3').values]
+    if name == 'volume':
+        return [float(obj.volume.to(unit=f'{lu}**3').value)]
+    if name == 'center':
+        return [float(x) for x in obj.center.to(unit=lu).value]
+    if name == 'transmission':
+        m, b, wv, dv = _tm_args(c, par)
+        return _tm_values(obj, m, b, wv, dv, par['kind'])
+    raise ValueError(name)
+
+
+def _same(got, want):
+    if len(got) != len(want):
+        return False
+    scale = max([abs(x) for x in want] + [1e-300])
+    return all(abs(g - w) <= 1e-12 * scale for g, w in zip(got, want))
+
+
+def run_history(hist):
+    """[(step index, use name, state, params, result on the reused object, result on a fresh object)]"""
+    c = dict(hist['cyl'])
+    obj = mk_cyl(c)
+    out = []
+    last_mut = None
+    for i, op in enumerate(hist['ops']):
+        if op[0] == 'use':
+            got = _do_use(obj, c, op[1], op[2])
+            want = _do_use(mk_cyl(c), c, op[1], op[2])
+            out.append((i, op[1], dict(c), op[2], got, want, last_mut))
+        else:
+            obj, c = _apply_mutation(obj, c, op[0], op[1])
+            last_mut = op
+    return out
+
+
+def check_history(hist):
+    bad = []
+    for i, name, c, par, got, want, mut in run_history(hist):
+        if not _same(got, want):
+            k = next((j for j, (g, w) in enumerate(zip(got, want)) if not abs(g - w) <= 1e-12 * max(abs(w), 1e-300)), 0)
+            desc = par if name == 'quadrature' else (par['kind'] if name == 'transmission' else '')
+            bad.append((STALE_KEY, f'step {i}: {name}({desc}) on a Cylinder object reused after {mut[0]} of {sorted(mut[1])} '
+                                   f'differs from a freshly constructed Cylinder with the same fields '
+                                   f'(entry {k}: {got[k] if k < len(got) else None!r} vs {want[k] if k < len(want) else None!r}; '
+                                   f'{len(got)} vs {len(want)} values)' if mut else f'step {i}: {name} not reproducible'))
+    return bad
+
+
+def gen_args_history(rng):
+    """Material / wavelength / detector / beam objects reused across two calls, the Material's fields reassigned
+    in between, cylinders differing between the calls"""
+    t1 = gen_transmission_case(rng, kind=rng.choice(['cheap', 'medium']), axis_aligned='beam')
+    c2 = dict(t1['cyl'])
+    size = max(c2['r'], c2['h'])
+    c2['base'] = [x + rng.uniform(-3, 3) * size for x in c2['base']]
+    if rng.random() < 0.5:
+        c2['a'] = gen_axis(rng)[1]
+    return {'t': t1, 'cyl2': c2, 'dens2': t1['dens'] * _lu(rng, 0.3, 3), 'sig_s2': t1['sig_s'] * _lu(rng, 0.3, 3) + 1e-3 / size,
+            'sig_a2': t1['sig_a'] * _lu(rng, 0.3, 3), 'mutate': rng.choice(['density', 'params', 'both', 'none'])}
+
+
+def check_args_history(hh):
+    import scipp as sc
+    from scippneutron.atoms import ScatteringParams
+
+    t, c1, c2 = hh['t'], hh['t']['cyl'], hh['cyl2']
+    u = c1['unit']
+    m, b, wv, dv = _tm_args(c1, t)
+    keep = [b.copy(), wv.copy(), dv.copy()]
+    first = _tm_values(mk_cyl(c1), m, b, wv, dv, t['kind'])
+    t2 = dict(t)
+    t2['cyl'] = c2
+    if hh['mutate'] in ('density', 'both'):
+        m.effective_sample_number_density = sc.scalar(hh['dens2'], unit=f'1/{u}**3')
+        t2['dens'] = hh['dens2']
+    if hh['mutate'] in ('params', 'both'):
+        m.scattering_params = ScatteringParams('Fake', absorption_cross_section=sc.scalar(hh['sig_a2'], unit=f'{u}**2'),
+                                               total_scattering_cross_section=sc.scalar(hh['sig_s2'], unit=f'{u}**2'))
+        t2['sig_a'], t2['sig_s'] = hh['sig_a2'], hh['sig_s2']
+    second = _tm_values(mk_cyl(c2), m, b, wv, dv, t['kind'])  # same Material / beam / wavelength / detector objects
+    bad = []
+    for name, before, after in zip(('beam_direction', 'wavelength', 'detector_position'), keep, (b, wv, dv)):
+        if not sc.identical(before, after):
+            bad.append((STALE_ARGS_KEY, f'{name} argument modified by compute_transmission_map'))
+    m1, b1, w1, d1 = _tm_args(c1, t)
+    if not _same(first, _tm_values(mk_cyl(c1), m1, b1, w1, d1, t['kind'])):
+        bad.append((STALE_ARGS_KEY, 'first call not reproducible with freshly built arguments'))
+    m2, b2, w2, d2 = _tm_args(c2, t2)
+    fresh = _tm_values(mk_cyl(c2), m2, b2, w2, d2, t['kind'])
+    if not _same(second, fresh):
+        bad.append((STALE_ARGS_KEY, f"second call with the reused Material (reassigned: {hh['mutate']}), wavelength, beam and detector "
+                                    f'objects gives {second[:3]}, freshly built arguments give {fresh[:3]}'))
+    return bad
+
+
+def oracle_histories(ctx, n, n_args):
+    for _ in range(n):
+        hist = gen_history(ctx.rng, ('cheap', 'medium') if ctx.rng.random() < 0.8 else ('expensive',))
+        uses = [op[1] for op in hist['ops'] if op[0] == 'use']
+        muts = [op for op in hist['ops'] if op[0] != 'use']
+        ctx.case(('oracle-history', tuple(uses), tuple(map(bits, hist['cyl']['a'] + hist['cyl']['base']))), True)
+        ctx.count(f'oracle-history:{len(uses)}-uses')
+        for j, u_ in enumerate(uses):
+            ctx.count(f'oracle-history:use:{u_}' + (':first' if j == 0 else ':after-update'))
+        for mth in muts:
+            ctx.count('oracle-history:update:' + mth[0])
+            for f_ in mth[1]:
+                ctx.count('oracle-history:field:' + f_)
+        for key, what in check_history(hist):
+            ctx.violation(key, what, hist)
+    for _ in range(n_args):
+        hh = gen_args_history(ctx.rng)
+        ctx.case(('oracle-args-history', hh['mutate'], tuple(map(bits, hh['t']['cyl']['a'] + hh['cyl2']['base']))), True)
+        ctx.count('oracle-args-history:' + hh['mutate'])
+        for key, what in check_args_history(hh):
+            ctx.violation(key, what, hh)
+
+
+def _correspond_histories(ctx):
+    """the same histories against the (stateless) Lean model: every use of the reused object is compared with
+    the model evaluated at the object's current field values"""
+    from scippneutron.absorption import quadratures as qmod
+
+    hists = [gen_history(ctx.rng, ('cheap', 'medium')) for _ in range(ctx.n(40, 500))]
+    lines, meta = [], []
+    for hist in hists:
+        for i, name, c, par, got, _want, mut in run_history(hist):
+            if name == 'beam':
+                for (cat, s_, n_), g in zip(par, got[:len(par)]):
+                    lines.append(_beam_line(c, s_, n_))
+                    meta.append((hist, i, name, c, ('ray', cat, s_), [g], mut))
+            elif name == 'center':
+                lines.append('c18.center ' + ' '.join(bits(v) for v in [*c['a'], *c['base'], c['h']]))
+                meta.append((hist, i, name, c, None, got, mut))
+            elif name == 'volume':
+                lines.append('c18.volume ' + ' '.join(bits(v) for v in [c['r'], c['h']]))
+                meta.append((hist, i, name, c, None, got, mut))
+            elif name == 'quadrature':
+                k = py_round_k(par, c['h'] / c['r'])
+                x, w = line_rule_numpy(par, k)
+                lines.append(_quad_line(par, c, c['r'], 1.0, x, w))
+                meta.append((hist, i, name, c, par, got, mut))
+            elif name == 'transmission':
+                k = py_round_k(par['kind'], c['h'] / c['r'])
+                x, w = line_rule_numpy(par['kind'], k)
+                pairs = [v for xw in zip(x, w) for v in xw]
+                mus = impl_mu({'cyl': c, **par})
+                nd = len(par['dets'])
+                for il, mu in enumerate(mus):
+                    for idet, d in enumerate(par['dets']):
+                        lines.append(f"c18.trans {par['kind']} " + ' '.join(
+                            bits(v) for v in [*c['a'], *c['base'], c['r'], c['h'], 1.0, *par['beam'], *d, mu, *pairs]))
+                        meta.append((hist, i, name, c, par['kind'], [got[il * nd + idet]], mut))
+    outs = ctx.driver(lines)
+    for (hist, i, name, c, par, got, mut), o in zip(meta, outs):
+        model = [unbits(t) for t in o.split()]
+        ctr = [c['base'][j] + c['a'][j] * c['h'] / 2 for j in range(3)]
+        ctx.count(f'history:{name}' + (':after-' + mut[0] if mut else ':first-use'))
+        ctx.case(('history', name, i, bits(c['r']), bits(c['h']), tuple(map(bits, c['a'] + c['base'])), repr(par)[:80]), mut is not None)
+        if name == 'beam':
+            ok = close_lengths(got[0], model[0], beam_scale(c, par[2]))
+            if not ok and par[1] in BOUNDARY_CATS:
+                ok = all(0 <= v <= math.hypot(2 * c['r'], c['h']) * (1 + REL) for v in (got[0], model[0]))
+        elif name == 'quadrature':
+            npts = len(model) // 4
+            scale = max(c['r'], c['h']) + _norm(ctr)
+            ok = len(got) == 4 * npts and all(
+                abs(got[3 * q + j] - model[4 * q + j]) <= REL * scale for q in range(npts) for j in range(3)) and all(
+                abs(got[3 * npts + q] - model[4 * q + 3]) <= REL * abs(model[4 * q + 3]) for q in range(npts))
+        elif name == 'center':
+            ok = len(model) == 3 and all(abs(g - m_) <= 1e-12 * (max(c['r'], c['h']) + _norm(ctr)) for g, m_ in zip(got, model))
+        elif name == 'volume':
+            ok = abs(got[0] - model[0]) <= 1e-12 * model[0]
+        else:
+            ok = abs(got[0] - model[0]) <= REL * abs(model[0])
+        if not ok:
+            ctx.disagree({'op': 'history:' + name, 'step': i, 'state': c, 'after': mut, 'history': hist}, got[:8], model[:8],
+                         'reused Cylinder object vs the model at the current field values')
+
+
 def correspond(ctx):
     _correspond_tables(ctx)
     _correspond_corpus(ctx)
     _correspond_beam(ctx)
     _correspond_quadrature(ctx)
     _correspond_transmission(ctx)
+    _correspond_histories(ctx)
 
 
 # ---------------------------------------------------------------------------------------------
@@ -1105,6 +1406,7 @@ def oracle(ctx, deep):
     oracle_beam(ctx, 400 if deep else ctx.n(250, 5000))
     oracle_quadrature(ctx, 300 if deep else ctx.n(150, 2000))
     oracle_transmission(ctx, 150 if deep else ctx.n(100, 1500), 40 if deep else ctx.n(30, 400))
+    oracle_histories(ctx, 200 if deep else ctx.n(120, 1500), 40 if deep else ctx.n(30, 300))
 
 
 # ---------------------------------------------------------------------------------------------
@@ -1138,6 +1440,16 @@ def replay(ctx, payload):
         return any(k == key for k, _ in bad)
     if key in ('C18:rigid-motion-invariance', 'C18:other-end-invariance', NEAR_AXIS_KEY):
         bad = check_invariance(w['t'], w['rot'], w['shift'], w['flip'])
+        for k, what in bad:
+            print(k, what)
+        return bool(bad)
+    if key == STALE_KEY:
+        bad = check_history(w)
+        for k, what in bad:
+            print(k, what)
+        return bool(bad)
+    if key == STALE_ARGS_KEY:
+        bad = check_args_history(w)
         for k, what in bad:
             print(k, what)
         return bool(bad)
